@@ -314,7 +314,7 @@ pub fn run(spec: &RunSpec) -> RunLog {
                         let t0 = Instant::now();
                         loop {
                             let pts = sched::chain_points();
-                            let idle = pts.values().all(|p| *p == sched::pt::CHAIN_PAUSED || *p == sched::pt::CHAIN_EXIT);
+                            let idle = pts.values().all(|p| p.0 == sched::pt::CHAIN_PAUSED || p.0 == sched::pt::CHAIN_EXIT);
                             if idle {
                                 let before = s.progress();
                                 let snap = shared.snapshot();
